@@ -36,7 +36,9 @@ type trFunc struct {
 	state     []string // "name:LeanType": package-level variables the function reads/writes (threaded as parameters and
 	// returned after the results), or "recv" for a receiver the method mutates (returned after the results)
 	maps []string // identifiers that are Go maps (indexing is a lookup with the zero value as default)
-	fuel string   // Lean term (over the parameters) bounding the iterations of the function's `for cond {}` loops
+	fuel string   // Lean term (over the parameters) bounding the iterations of the function's `for cond {}` loops; the special
+	// value "guards" translates only the leading `if cond { return ..., err }` statements of a constructor (its parameter
+	// validation): the result is the error of the first guard that fires, none when all pass
 }
 
 var trList = []trFunc{
@@ -63,6 +65,8 @@ var trList = []trFunc{
 	{"CodeTableOps", "table", "Table.DelRewriter", "Table.DelRewriter", true, false, []string{"recv"}, nil, ""},
 	{"CodeTableOps", "table", "Table.DelAggregator", "Table.DelAggregator", false, false, []string{"recv"}, nil, ""},
 	{"CodeTableOps", "table", "Table.DelRoute", "Table.DelRoute", false, false, []string{"recv"}, nil, ""},
+	{"CodeGuards", "destination", "New", "destination_New_guards", true, false, nil, nil, "guards"},
+	{"CodeGuards", "route", "NewGrafanaNet", "NewGrafanaNet_guards", true, false, nil, nil, "guards"},
 	{"CodeReadDest", "imperatives", "readDestination", "readDestination", true, true, []string{"param:s"}, nil, "(s.toks.length + 2)"},
 }
 
@@ -74,6 +78,7 @@ var leanTypes = map[string]string{
 	"uint16": "Int", "uint": "Int", "float64": "F64", "error": "Err",
 	"*Matcher": "Matcher", "Matcher": "Matcher", "*Table": "Table", "*SendAllMatch": "SendAllMatch", "*SendFirstMatch": "SendFirstMatch",
 	"*ConsistentHasher": "ConsistentHasher", "*ConsistentHashing": "ConsistentHashing", "*Aggregator": "Aggregator", "*keepSafe": "keepSafe", "RW": "RW",
+	"time.Duration": "Int", "matcher.Matcher": "MatcherArgs", "GrafanaNetConfig": "GrafanaNetConfig",
 	"*toki.Scanner": "Scanner", "table.Interface": "TableI", "*destination.Destination": "DestP",
 	"route.Route": "RouteI", "*matcher.Matcher": "MatcherI", "*aggregator.Aggregator": "AggregatorI", "rewriter.RW": "RewriterI",
 }
@@ -1224,6 +1229,9 @@ func translateFunc(f trFunc, fd *ast.FuncDecl, pkgFns map[string]string) string 
 	if fd.Type.Results != nil {
 		for _, r := range fd.Type.Results.List {
 			lt, ok := leanTypes[src(r.Type)]
+			if !ok && f.fuel == "guards" {
+				lt, ok = "Unit", true // only the error of the guards is kept
+			}
 			if !ok {
 				fail("result type %s", src(r.Type))
 			}
@@ -1287,7 +1295,30 @@ func translateFunc(f trFunc, fd *ast.FuncDecl, pkgFns map[string]string) string 
 		}
 		rt = "Res (" + rt + ")"
 	}
-	body := c.stmts(fd.Body.List, "  ")
+	stmtsList := fd.Body.List
+	if f.fuel == "guards" {
+		// the leading guards only; the value is the error alone
+		var gs []ast.Stmt
+		for _, st := range stmtsList {
+			is, ok := st.(*ast.IfStmt)
+			if !ok || is.Init != nil || is.Else != nil || len(is.Body.List) != 1 {
+				break
+			}
+			rs, ok := is.Body.List[0].(*ast.ReturnStmt)
+			if !ok || len(rs.Results) == 0 {
+				break
+			}
+			gs = append(gs, &ast.IfStmt{Cond: is.Cond, Body: &ast.BlockStmt{List: []ast.Stmt{&ast.ReturnStmt{Results: []ast.Expr{rs.Results[len(rs.Results)-1]}}}}})
+		}
+		if len(gs) == 0 {
+			fail("no leading guards")
+		}
+		gs = append(gs, &ast.ReturnStmt{Results: []ast.Expr{ast.NewIdent("nil")}})
+		stmtsList = gs
+		rt = "Err"
+		c.nres = 1
+	}
+	body := c.stmts(stmtsList, "  ")
 	name := f.lean
 	if strings.Contains(name, ".") {
 		name = "_root_.Crng.Code." + name
